@@ -180,6 +180,7 @@ func scenarioC17(rc *RunCtx) *Violation {
 		canceled := strings.Contains(errTexts(r.Res), "The build was canceled")
 		if canceled {
 			rc.Probe("canceled_build")
+			rc.Stats.Faults["cancellation_during_build"]++
 		}
 		if r.CancelIssued && !canceled {
 			rc.Probe("cancel_too_late")
